@@ -461,18 +461,23 @@ func timingClass(class string) bool {
 	return false
 }
 
-// confirm re-runs a case whose failure is a timing verdict once: it is reported only if the
-// second run fails as well (with whatever it reports then).
+// confirm re-runs a case whose failure is a timing verdict up to twelve times (20 s at most): it is reported if
+// one of the repetitions fails as well (with whatever that one reports). A deadlock that needs
+// an unlucky interleaving does not show in every run of the same case, a stall caused by other
+// work on the machine practically never shows twice.
 func confirm(f *Failure, again func() *Failure) *Failure {
 	if f == nil || !timingClass(f.Class) {
 		return f
 	}
 	Label("timing-verdict-repeated")
-	f2 := again()
-	if f2 == nil {
-		Label("timing-verdict-not-confirmed")
+	t0 := time.Now()
+	for i := 0; i < 12 && time.Since(t0) < 20*time.Second; i++ {
+		if f2 := again(); f2 != nil {
+			return f2
+		}
 	}
-	return f2
+	Label("timing-verdict-not-confirmed")
+	return nil
 }
 
 // Each runs one enumerated case (exhaustive loops); returns false after a failure
